@@ -395,9 +395,23 @@ pub fn run_big_collections(ctx: &mut Ctx) {
         "(size (filter (range 1200000) (< . 1100000)))",
         "(sum (map (range 1100000) 1))",
         "(size (push (range 1100000) 1))",
+        // many arguments (functions that take any number of them)
+        "(zip [1] [2] [3] [4] [5] [6] [7] [8] [9] [10] [11] [12])",
+        "(zip [1,2] [3] [4,5] [6] [7] [8] [9] [10] [11] [12] [13] [14] [15] [16] [17] [18] [19] [20] [21] [22] [23,24])",
+        "(cross [1] [2] [3] [4] [5] [6] [7] [8] [9] [10] [11] [12])",
+        "(push [] 1 2 3 4 5 6 7 8 9 10 11 12 13 14 15 16 17 18 19 20 21 22 23 24 25 26 27 28 29 30 31 32 33)",
+        "(push_front [] 1 2 3 4 5 6 7 8 9 10 11 12 13 14 15 16 17 18 19 20 21 22 23 24 25 26 27 28 29 30 31 32 33)",
+        "(+ 1 2 3 4 5 6 7 8 9 10 11 12 13 14 15 16 17 18 19 20 21 22 23 24 25 26 27 28 29 30 31 32 33)",
+        "(* 1 2 1 2 1 2 1 2 1 2 1 2 1 2 1 2 1 2 1 2 1 2 1 2 1 2 1 2 1 2 1 2 3)",
+        "(concat \"a\" \"b\" \"c\" \"d\" \"e\" \"f\" \"g\" \"h\" \"i\" \"j\" \"k\" \"l\" \"m\" \"n\" \"o\" \"p\" \"q\" \"r\" \"s\" \"t\")",
+        "(and true true true true true true true true true true true true true true true true true false)",
+        "(or false false false false false false false false false false false false false false false false false true)",
+        "(default .n0 .n1 .n2 .n3 .n4 .n5 .n6 .n7 .n8 .n9 .n10 .n11 .n12 .n13 .n14 .n15 .n16 17)",
+        "(| 1 (+ . 1) (+ . 1) (+ . 1) (+ . 1) (+ . 1) (+ . 1) (+ . 1) (+ . 1) (+ . 1) (+ . 1) (+ . 1) (+ . 1) (+ . 1) (+ . 1) (+ . 1) (+ . 1) (+ . 1) (+ . 1) (+ . 1) (+ . 1))",
+        "(\"+\" \"1\" \"2\" \"3\" \"4\" \"5\" \"6\" \"7\" \"8\" \"9\" \"10\" \"11\" \"12\" \"13\" \"14\" \"15\" \"16\" \"17\" \"18\" \"19\" \"20\")",
     ];
     let total = exprs.len() as u64;
-    run_enum(ctx, "C04.big_collections", total, "ten expressions over lists of 1.1 to 1.2 million elements", |idx| {
+    run_enum(ctx, "C04.big_collections", total, "ten expressions over lists of 1.1 to 1.2 million elements, thirteen calls with 12 to 33 arguments", |idx| {
         let e = crate::pools::mini_parse(exprs[idx as usize]);
         let case = Case04 { e, vars: vec![], macros: vec![], priors: vec![], inputs: vec!["null".to_string()], spell: Spell::CANON };
         let res = C04Eval.check(&case);
@@ -538,7 +552,7 @@ pub fn run_negation(ctx: &mut Ctx) {
 }
 
 pub fn run_all(ctx: &mut Ctx) {
-    ctx.rule = "expressions whose root is one of the 108 pure functions (stratified: each function and each of its signatures equally often), depth 1, 3 or 5, type-directed arguments with 3/16 ill-typed, boundary-biased sizes (N = size-1, size, size+1, 0), literals of all six types incl. empty/singleton collections and non-ASCII strings, extractors . .k #i ^, :var, @macro (--set), /name/ (earlier selections), printed with canonical names or aliases and space/comma separators x 1..3 inputs (schema records with absent and wrong-typed fields, or arbitrary values). Oracle: the reference evaluator written from the function documentation; unspecified points (string length unit for non-ASCII, order of different objects, tail, float indices, empty separators, ...) are not judged, floating-point results within relative 1e-12, member order of records synthesised by entries/indexed/fold/zip/cross not compared. non-trivial = at least one input was judged (expected value or expected nothing). C04.pools: every function signature called directly with literal arguments from wide per-kind pools (harness/src/pools.rs: 77 numbers incl. 1e-300, 2^53+-1, 2^63, 2^64-1; 58 strings incl. regex metacharacters and 65-byte strings with a common 64-byte prefix; 67 patterns; lists of 21, 33 and 40 elements; objects that differ in member order; lambda bodies that return nothing for some elements), the whole product when it is below the cap (2600 quick, 60000 thorough per signature), a seeded sample otherwise. C04.paths: extractor paths (.k, .k1.k2, .k#1.k, ^.k1.k2 inside a lambda) over all ordered pairs of 25 member names of every shape the path syntax admits (non-ASCII, punctuation, digits); same oracle. C04.times: parse_time / parse_time_with_zone over a grid of 245 date-times x 8 fractions / 7 zones in the three layouts the reference decides, format_time over 16 instants x every format of the pool. C04.big_collections: ten expressions over lists of 1.1 to 1.2 million elements (sizes, take / take_last / sub / get beyond 2^20). C04.negation: != is the negation of = (and symmetric) on all pairs of a value pool, also where the value of = itself is left open; the same for \"=\" / \"!=\". C04.nas_sort: the number-as-string sort and its three aliases on up to 160 elements whose keys come from 16 value classes with several spellings each; oracle: stable sort by exact decimal value, elements without a key first (the documented example)".into();
+    ctx.rule = "expressions whose root is one of the 108 pure functions (stratified: each function and each of its signatures equally often), depth 1, 3 or 5, type-directed arguments with 3/16 ill-typed, boundary-biased sizes (N = size-1, size, size+1, 0), literals of all six types incl. empty/singleton collections and non-ASCII strings, extractors . .k #i ^, :var, @macro (--set), /name/ (earlier selections), printed with canonical names or aliases and space/comma separators x 1..3 inputs (schema records with absent and wrong-typed fields, or arbitrary values). Oracle: the reference evaluator written from the function documentation; unspecified points (string length unit for non-ASCII, order of different objects, tail, float indices, empty separators, ...) are not judged, floating-point results within relative 1e-12, member order of records synthesised by entries/indexed/fold/zip/cross not compared. non-trivial = at least one input was judged (expected value or expected nothing). C04.pools: every function signature called directly with literal arguments from wide per-kind pools (harness/src/pools.rs: 77 numbers incl. 1e-300, 2^53+-1, 2^63, 2^64-1; 58 strings incl. regex metacharacters and 65-byte strings with a common 64-byte prefix; 67 patterns; lists of 21, 33 and 40 elements; objects that differ in member order; lambda bodies that return nothing for some elements), the whole product when it is below the cap (2600 quick, 60000 thorough per signature), a seeded sample otherwise. C04.paths: extractor paths (.k, .k1.k2, .k#1.k, ^.k1.k2 inside a lambda) over all ordered pairs of 25 member names of every shape the path syntax admits (non-ASCII, punctuation, digits); same oracle. C04.times: parse_time / parse_time_with_zone over a grid of 245 date-times x 8 fractions / 7 zones in the three layouts the reference decides, format_time over 16 instants x every format of the pool. C04.big_collections: ten expressions over lists of 1.1 to 1.2 million elements (sizes, take / take_last / sub / get beyond 2^20) and thirteen calls of variadic functions with 12 to 33 arguments. C04.negation: != is the negation of = (and symmetric) on all pairs of a value pool, also where the value of = itself is left open; the same for \"=\" / \"!=\". C04.nas_sort: the number-as-string sort and its three aliases on up to 160 elements whose keys come from 16 value classes with several spellings each; oracle: stable sort by exact decimal value, elements without a key first (the documented example)".into();
     ctx.assumptions = vec!["the reference evaluator (harness/src/eval.rs) states the documentation correctly; a disagreement is first treated as a possible harness error".into()];
     C04Eval.run(ctx);
     run_pools(ctx);
